@@ -50,7 +50,7 @@ Proof.
 Qed.
 
 Lemma hrev_J0 N ram disk L0 : 1 <= N -> 0 <= ram -> HRevBlk.HB ram HRevBlk.MTop 0 (N - 1) L0 ->
-  exists T, DiskBridge3.J N ram (map injH L0) KHRevolve ram disk T {| ob := ORevF KHRevolve N ram disk (init_r (map injH L0)); started := false |} mon0.
+  exists T W Rd, DiskBridge3.J N ram (map injH L0) KHRevolve ram disk T W Rd {| ob := ORevF KHRevolve N ram disk (init_r (map injH L0)); started := false |} mon0.
 Proof.
   intros HN Hram HB. set (L := map injH L0).
   pose proof (HB_nonempty _ _ _ _ _ HB) as Hne.
@@ -70,11 +70,12 @@ Proof.
   assert (Hsn : RevBlk.snaps c' = []).
   { destruct (RevBlk.snaps c') as [|z l] eqn:E; [reflexivity|]. exfalso.
     destruct (proj1 (Hss z) ltac:(rewrite E; left; reflexivity)) as [Hin|[]]. unfold RevBlk.keys in Hin. rewrite Hst in Hin. exact Hin. }
-  exists (RevBridge3.sumflen acts).
-  apply (DiskBridge3.Jrun N ram L KHRevolve ram disk (RevBridge3.sumflen acts) 0%nat init_c [] X0 0 false mon0).
+  exists (RevBridge3.sumflen acts), (DiskBridge3.sumdw acts), (DiskBridge3.sumdr acts).
+  apply (DiskBridge3.Jrun N ram L KHRevolve ram disk (RevBridge3.sumflen acts) (DiskBridge3.sumdw acts) (DiskBridge3.sumdr acts) 0%nat init_c [] X0 0 0 0 false mon0).
   - lia.
   - reflexivity.
   - unfold RxD, X0. cbn [DiskBlk.mx DiskBlk.dk map]. split; [|reflexivity]. unfold Rx, toMS, RevGen.init_x, mon0, x0. cbn. repeat split; reflexivity.
+  - split; reflexivity.
   - unfold NN, X0, RevGen.init_x. cbn. repeat split; try lia; try discriminate. intros f Hf0; injection Hf0 as <-; lia.
   - intros k0 v Hk. cbn in Hk. discriminate.
   - intros a b Hd. cbn in Hd. discriminate.
@@ -103,11 +104,11 @@ Proof.
   destruct (hrev_seq N ram disk uf ub wd rd L HN Hram Hram1 HL) as (L0 & -> & HB).
   unfold run_case, Sched.construct, RevConv.construct. rewrite HL. cbn [bind].
   destruct (Z.ltb_spec N 1); [lia|]. destruct (Z.ltb_spec ram (Z.min 1 (N - 1))); [lia|]. cbn [bind].
-  destruct (hrev_J0 N ram disk L0 HN Hram HB) as [T HJ0].
-  pose proof (DiskBridge3.run_nexts2 N ram ltac:(lia) (map injH L0) KHRevolve ram disk T k _ _ HJ0) as Hrun.
+  destruct (hrev_J0 N ram disk L0 HN Hram HB) as (T & W & Rd & HJ0).
+  pose proof (DiskBridge3.run_nexts2 N ram ltac:(lia) (map injH L0) KHRevolve ram disk T W Rd k _ _ HJ0) as Hrun.
   change (DiskBridge2.pD N ram) with (disk_xparams N ram) in Hrun.
   destruct (run_ops (disk_xparams N ram) _ mon0 (repeat Next k)) as [[s' m'] ls]. destruct Hrun as [HJ Hnr].
-  eexists _, _, _. split; [reflexivity|]. split; [exact Hnr|]. exact (DiskBridge3.J_verdict _ _ _ _ _ _ _ _ _ HJ).
+  eexists _, _, _. split; [reflexivity|]. split; [exact Hnr|]. exact (DiskBridge3.J_verdict _ _ _ _ _ _ _ _ _ _ _ HJ).
 Qed.
 Print Assumptions hrevolve_run.
 
@@ -119,12 +120,12 @@ Proof.
   intros HN Hram Hram1 HL.
   destruct (hrev_seq N ram disk uf ub wd rd L HN Hram Hram1 HL) as (L0 & -> & HB).
   exists (2 * length L0 + 2)%nat. intros k Hk.
-  destruct (hrev_J0 N ram disk L0 HN Hram HB) as [T HJ0].
-  pose proof (DiskBridge3.run_nexts2 N ram ltac:(lia) (map injH L0) KHRevolve ram disk T k _ _ HJ0) as Hrun.
-  pose proof (DiskBridge3.run_nexts2_fin N ram ltac:(lia) (map injH L0) KHRevolve ram disk T k _ _ HJ0) as Hfin.
+  destruct (hrev_J0 N ram disk L0 HN Hram HB) as (T & W & Rd & HJ0).
+  pose proof (DiskBridge3.run_nexts2 N ram ltac:(lia) (map injH L0) KHRevolve ram disk T W Rd k _ _ HJ0) as Hrun.
+  pose proof (DiskBridge3.run_nexts2_fin N ram ltac:(lia) (map injH L0) KHRevolve ram disk T W Rd k _ _ HJ0) as Hfin.
   change (DiskBridge2.pD N ram) with (disk_xparams N ram) in Hrun, Hfin.
   destruct (run_ops (disk_xparams N ram) _ mon0 (repeat Next k)) as [[s' m'] ls]. destruct Hrun as [HJ Hnr]. cbn [fst] in Hfin.
-  split; [exact Hnr|]. split; [exact (DiskBridge3.J_verdict _ _ _ _ _ _ _ _ _ HJ)|]. apply Hfin. right.
+  split; [exact Hnr|]. split; [exact (DiskBridge3.J_verdict _ _ _ _ _ _ _ _ _ _ _ HJ)|]. apply Hfin. right.
   unfold RevBridge3.muS. cbn [ob init_r finished idx pend length]. rewrite map_length. lia.
 Qed.
 Print Assumptions hrevolve_terminates.
